@@ -280,10 +280,14 @@ func (p *podAssignCache) getOrCreateNodeInfo(nodeName string) (_ *nodeInfo, crea
 // NOTICE: nodeInfo should be locked before calling this method.
 func (p *podAssignCache) tryCleanup(name string, n *nodeInfo) {
 	if n.nodeMetric == nil && len(n.podInfos) == 0 {
-		n.deleted = true
 		// only delete action has the chance that goroutine holds two locks,
 		// and the order always will be nodeInfo lock first, then podAssignCache.items lock
+		//
+		// Remove the nodeInfo from items BEFORE marking it as deleted: a writer that sees the deleted mark (it is also
+		// checked without the lock) retries with a fresh lookup, and at most twice. While the marked nodeInfo was still
+		// in items, both tries could get it again and the pod (or node metric) was dropped from the cache.
 		p.items.CompareAndDelete(name, n)
+		n.deleted = true
 	}
 }
 
